@@ -365,3 +365,34 @@ def coordinates_history(case, ctx):
             raise Violation("C11.history.value", f"mode {j} over mask {i} ({d['kind']}) differs from the textbook value at "
                                                  f"rho = distance/extent after evaluating masks with extents {extents[:-1]}")
     ctx.nontrivial_if(len(set(extents)) >= 2)
+
+
+# --- masks of more than a million samples ------------------------------------------------------------------------
+
+@hyp("C11", "mega", lambda tier: st.fixed_dictionaries({"shape": gen.mega_shape().map(list), "j": st.integers(2, 36),
+                                                        "normalize": st.booleans(), "seed": st.integers(0, 2**31 - 1)}),
+     "one mode on a mask of more than 2^20 samples with default coordinates: zero off the mask, textbook value at "
+     "lentil's own (rho, theta) on it, rho = 1 at the farthest masked sample", examples=(3, 12), budget_s=(150, 700))
+def mega(case, ctx):
+    m, n = case["shape"]
+    j = case["j"]
+    _, nn, am, kind = _seq(20000)[j - 1]
+    yy, xx = np.mgrid[0:m, 0:n]
+    r0, c0 = m * 0.47, n * 0.52
+    mask = (((yy - r0) / (0.45 * m)) ** 2 + ((xx - c0) / (0.44 * n)) ** 2 <= 1).astype(int)
+    ctx.tag("mega", kind)
+    ctx.nontrivial_if(True)
+    with lentil_call("C11.mega", f"zernike(mask {m}x{n}, j={j})"):
+        rho, theta = lentil.zernike_coordinates(mask)
+        got = np.asarray(lentil.zernike(mask, j, normalize=case["normalize"]), dtype=float)
+    if got.shape != (m, n) or np.any(got[mask == 0] != 0):
+        raise Violation("C11.mega.outside", f"mode j={j} on a {m}x{n} mask is not zero outside the mask")
+    sel = mask != 0
+    if abs(float(rho[sel].max()) - 1) > 1e-12:
+        raise Violation("C11.mega.rho_max", f"max rho over the mask = {float(rho[sel].max())}")
+    ref, mag = zern.mode(nn, am, kind, rho[sel], theta[sel], normalize=case["normalize"])
+    sign = _sine_sign() if kind == "sin" else 1.0
+    tol = 64 * np.finfo(float).eps * (np.asarray(mag, dtype=float) * (1 + am * np.abs(theta[sel])) + 1.0)
+    if np.any(np.abs(got[sel] - sign * np.asarray(ref, dtype=float)) > tol):
+        raise Violation("C11.mega.value", f"mode j={j} on a {m}x{n} mask differs from the textbook polynomial at "
+                                          f"lentil's own coordinates")
